@@ -13,4 +13,4 @@ var calledRe = regexp.MustCompile(`called\("([^"]+)"\)`)
 var callsRe = regexp.MustCompile(`calls\("([^"]+)"\)`)
 
 // lastret("F"): result of the most recent call of the contracted function F on this path.
-var lastretRe = regexp.MustCompile(`lastret\("([^"]+)"\)`)
+var lastretRe = regexp.MustCompile(`lastret(?:Of\[[^(]*\])?\("([^"]+)"\)`)
